@@ -3,11 +3,26 @@ import json, os, subprocess, sys, time, hashlib, shutil
 from . import tlc, progs, configs
 
 ROOT = os.path.dirname(os.path.dirname(os.path.abspath(__file__)))
-HARNESS = os.path.join(ROOT, "harness")
+# Development aid (mutant sweeps on scratch worktrees, in parallel, without touching /repo): VERIF_REPO names another checkout
+# of bevy_cobweb and VERIF_SCRATCH a directory that receives a copy of the harness (path dependency rewritten), the work files,
+# the replays and the evidence. The registered checks never set these: they build against /repo and write into /verif.
+REPO = os.environ.get("VERIF_REPO", "/repo")
+SCRATCH = os.environ.get("VERIF_SCRATCH")
+SKIP_MC = bool(os.environ.get("VERIF_SKIP_MC"))      # the model check does not depend on the code under test
+if SCRATCH:
+    SCRATCH = os.path.abspath(SCRATCH)
+    HARNESS = os.path.join(SCRATCH, "harness")
+    WORK = os.path.join(SCRATCH, "work")
+    REPLAYS = os.path.join(SCRATCH, "replays")
+    EVIDENCE = os.path.join(SCRATCH, "evidence")
+else:
+    if REPO != "/repo":
+        raise SystemExit("VERIF_REPO needs VERIF_SCRATCH")
+    HARNESS = os.path.join(ROOT, "harness")
+    WORK = os.path.join(ROOT, "work")
+    REPLAYS = os.path.join(ROOT, "replays")
+    EVIDENCE = os.path.join(ROOT, "evidence")
 BIN = os.path.join(HARNESS, "target", "debug", "cobweb_harness")
-WORK = os.path.join(ROOT, "work")
-REPLAYS = os.path.join(ROOT, "replays")
-EVIDENCE = os.path.join(ROOT, "evidence")
 
 class ToolError(Exception):
     pass
@@ -19,6 +34,14 @@ def build_harness():
     """Rebuild the harness (and with it bevy_cobweb from /repo's working tree, hooks on)."""
     t0 = time.time()
     env = dict(os.environ, CARGO_NET_OFFLINE="true")
+    if SCRATCH:
+        src = os.path.join(ROOT, "harness")
+        os.makedirs(HARNESS, exist_ok=True)
+        subprocess.run(["rsync", "-a", "--delete", "--exclude", "target", src + "/", HARNESS + "/"], check=True)
+        ct = os.path.join(HARNESS, "Cargo.toml")
+        open(ct, "w").write(open(os.path.join(src, "Cargo.toml")).read().replace('path = "/repo"', 'path = "%s"' % REPO))
+        if not os.path.exists(os.path.join(HARNESS, "target")) and os.path.exists(os.path.join(src, "target")):
+            subprocess.run(["cp", "-a", os.path.join(src, "target"), os.path.join(HARNESS, "target")], check=True)
     p = subprocess.run(["cargo", "build", "--offline"], cwd=HARNESS, env=env, stdout=subprocess.PIPE, stderr=subprocess.STDOUT, text=True)
     if p.returncode != 0:
         tail = "\n".join(p.stdout.splitlines()[-40:])
@@ -243,7 +266,7 @@ def check_property(prop, tier, seed):
         group = configs.GROUPS[gname]
         g = dict()
         # (a) model check
-        if configs.TIERS[tier]["mc"] in group:
+        if configs.TIERS[tier]["mc"] in group and not SKIP_MC:
             mc, consts = run_mc(group, gname, tier, wd, seed)
             if mc.error:
                 raise ToolError("TLC error in model check of group %s:\n%s" % (gname, mc.error))
